@@ -33,7 +33,7 @@ def named_fn(arg, f, hook=None, tag=None):
 
 
 GRAPHS = ["lin_s", "lin_d_s", "gmrf_d_s", "lmrf_d", "two_lik", "nonlin", "xz_s", "laplace_b", "mean_m", "cmrf_d",
-          "lognormal", "lognormal_cov_s", "lin_sqrtprecF", "reg_d", "lin_geom", "sigdep_x", "direct_param", "cov_sd", "selfnamed", "cov_sdt", "lin_step", "kl_nonlin", "gamma_mv", "heat_pde", "userdef_x"]   # ("reg_s" is buildable but RegularizedGaussian has no log-density: not a C01/C11 graph)
+          "lognormal", "lognormal_cov_s", "lin_sqrtprecF", "reg_d", "lin_geom", "sigdep_x", "direct_param", "cov_sd", "selfnamed", "cov_sdt", "lin_step", "kl_nonlin", "gamma_mv", "heat_pde", "userdef_x", "mapped_x"]   # ("reg_s" is buildable but RegularizedGaussian has no log-density: not a C01/C11 graph)
 
 
 def _lg(r, cov):
@@ -239,6 +239,28 @@ def build(rec, hook=None):
         dens = [y, x, s]
         vals = {"y": ydata, "x": xval, "s": pos()}
         out["models"]["A"] = M
+    elif g == "mapped_x":
+        # a positive field represented by its logarithm (MappedGeometry exp); the value of x is handed over as a plain
+        # array, as a CUQIarray of parameters or as a CUQIarray of FUNCTION VALUES (rec['xform'])
+        from cuqi.geometry import MappedGeometry, Continuous1D
+        from cuqi.array import CUQIarray
+        Gm = MappedGeometry(Continuous1D(n), map=np.exp, imap=np.log)
+        d = Gamma(2.0, 1.0, name="d")
+        x = Gaussian(np.zeros(n), prec=idt("d", "x.prec"), geometry=Gm, name="x")
+        M = LinearModel(lambda x: A @ x, lambda y: A.T @ y, range_geometry=m, domain_geometry=Gm)
+        y = Gaussian(M(x), 0.3, name="y")
+        dens = [y, x, d]
+        xv = xval * 0.4
+        form = rec.get("xform", "array")
+        if form == "cuqi_par":
+            xv = CUQIarray(xv, is_par=True, geometry=Gm)
+        elif form == "cuqi_fun":
+            xv = CUQIarray(xv, is_par=True, geometry=Gm).funvals
+        vals = {"y": ydata, "x": xv, "d": pos()}
+        out["models"]["A"] = M
+        if form != "cuqi_fun":
+            out["closed_form"] = lambda v: (_lg(v["y"] - A @ np.exp(np.asarray(v["x"], float)), 0.3)
+                                            + _lg(np.asarray(v["x"], float), 1 / v["d"]) + _lgam(v["d"], 2.0, 1.0))
     elif g == "cov_sd":
         # one callable with TWO hyper-parameter arguments, which may be fixed in separate steps (functools.partial path)
         s = Gamma(1.0, 0.1, name="s")
